@@ -80,3 +80,16 @@ check('C20',
       'formulation (one execution variable per order, harness/ref.py, HiGHS) in which EAO\'s dispatch must be feasible.',
       TB + 'The independent formulation is supporting evidence and the failing-input search, not a proof.',
       'Coq proof + differential correspondence + implementation oracle + independent reference formulation', 'DESIGN.md 5 C20')
+check('C02',
+      'PARTIAL proof. Proved for all inputs and sizes (Props/C02.v): the in/out split of a contract step represents exactly the flows in '
+      '[min,max] and costs price x flow + spread x |flow| whenever one side is zero and never less; per-step limits are rate x step '
+      'length; a transport delivers at node 2 the flow leaving node 1 times the efficiency; the storage level obeys the recursion of '
+      'the statement and the tail-sum cost coefficients charge cost x dt x discount on (level - baseline) (Abel summation); take rows '
+      'are prorated; the portfolio problem is the direct sum of the asset blocks coupled only by the nodal rows with additive value. '
+      'Not proved: the composition into one optimum-equals-reference statement for arbitrary portfolios and the discount factor itself '
+      '(irrational power, oracle). Decided per instance instead: every model builder (contracts in all parameter forms, takes, '
+      'transports, storages, multi-commodity) is compared with the implementation, and on every generated portfolio EAO\'s optimum is '
+      'compared with the optimum of an independently written textbook LP (harness/ref.py, HiGHS) in which EAO\'s returned dispatch '
+      'must be feasible.',
+      TB + 'The independent formulation is supporting evidence and the failing-input search, not a proof; its own correctness is trusted.',
+      'Coq proof (building blocks, partial) + differential correspondence + independent reference LP per instance', 'DESIGN.md 5 C02')
